@@ -32,7 +32,7 @@ def const(v):
     """Concrete number as an exact constant term, so that later arithmetic stays exact (1/3 is 1/3)."""
     if isinstance(v, (SymX, SymInt, SymBool)) or core._is_special(v):
         return v
-    if isinstance(v, (bool, _np.bool_)):
+    if isinstance(v, (bool, _np.bool_)) or not isinstance(v, (int, float, _np.integer, _np.floating)):
         return v
     return SymX(core.realval(v))
 
@@ -237,8 +237,19 @@ def _pred(fn1, realname):
 
 def _isclose(a, b, rtol=1e-05, atol=1e-08, equal_nan=False):
     if _sym() and (has_sym(a) or has_sym(b)):
-        # exact-real abstraction: closeness is equality
-        return _np.equal(objarray(a), objarray(b))
+        # numpy's documented predicate, evaluated over the reals: |a - b| <= atol + rtol * |b|
+        def one(x, y):
+            if core._is_special(x) or core._is_special(y):
+                return bool(_np.isclose(x if core._is_special(x) else 0.0, y if core._is_special(y) else 0.0,
+                                        rtol, atol, equal_nan)) if (core._is_special(x) and core._is_special(y)) else False
+            return bool(abs(x - y) <= atol + rtol * abs(y))
+        A, B = _np.broadcast_arrays(objarray(a), objarray(b))
+        out = _np.empty(A.shape, dtype=bool)
+        if A.ndim == 0:
+            return _np.bool_(one(A[()], B[()]))
+        for idx in _np.ndindex(A.shape):
+            out[idx] = one(A[idx], B[idx])
+        return out
     return _np.isclose(a, b, rtol, atol, equal_nan)
 
 
@@ -288,6 +299,27 @@ def _gradient(f, *varargs, axis=None, edge_order=1):
     return _np.moveaxis(out, 0, axis)
 
 
+def _unary(name, method):
+    real = getattr(_np, name)
+
+    def one(v):
+        if isinstance(v, (SymX, SymInt)):
+            v = v if isinstance(v, SymX) else v._promote()
+            return getattr(v, method)()
+        with _np.errstate(all='ignore'):
+            return float(real(v))
+
+    def f(x, *a, **kw):
+        if _sym() and has_sym(x) and not a and not kw:
+            r = _elementwise(one, x, object)
+            if isinstance(r, _np.ndarray) and r.ndim == 0:
+                return r[()]
+            return r
+        return real(x, *a, **kw)
+    f.__name__ = name
+    return f
+
+
 def _float64(x=0.0):
     if _sym() and has_sym(x):
         return x
@@ -320,6 +352,10 @@ _OVERRIDES = {
     'cov': _cov,
     'gradient': _gradient,
     'float64': _float64,
+    'exp': _unary('exp', 'exp'),
+    'log': _unary('log', 'log'),
+    'sqrt': _unary('sqrt', 'sqrt'),
+    'log1p': _unary('log1p', 'log1p'),
 }
 
 
@@ -400,7 +436,11 @@ class SymMath:
     @staticmethod
     def isclose(a, b, rel_tol=1e-09, abs_tol=0.0):
         if isinstance(a, (SymX, SymInt)) or isinstance(b, (SymX, SymInt)):
-            return bool(a == b)
+            # math.isclose over the reals: |a-b| <= max(rel_tol * max(|a|, |b|), abs_tol)
+            d = abs(a - b)
+            if bool(d <= abs_tol):
+                return True
+            return bool(d <= rel_tol * abs(a)) or bool(d <= rel_tol * abs(b))
         return math.isclose(a, b, rel_tol=rel_tol, abs_tol=abs_tol)
 
     @staticmethod
